@@ -39,7 +39,7 @@ def generate(tier, seed):
         for f in ["string<", "string=", "string>"]:
             reqs += ["(%s %s \"a\")" % (f, bad), "(%s \"a\" %s)" % (f, bad), "(%s \"a\")" % f, "(%s)" % f, "(%s \"a\" \"b\" \"c\")" % f]
     dirs = ["%s", "%S", "%d", "%f", "%%", "%x", "%", "a", " ", "é", "\\n", "%5d", "\\\""]
-    args = ["1", "-7", "2.5", "100.25", '"str"', '"q\\"t"', "'sym", "'(1 \"x\" b)", "nil", "t", ":k", "1.0", "3.75", "'(a . b)", "0.1"]
+    args = ["1", "-7", "2.5", "100.25", '"str"', '"q\\"t"', '"a\\\\b"', '"x\\\\"', "'(\"a\\\\b\" \"c\")", "'(\"q\\\"\" . \"\\\\\")", "'sym", "'(1 \"x\" b)", "nil", "t", ":k", "1.0", "3.75", "'(a . b)", "0.1"]
     for _ in range(2500 if tier == "quick" else 60000):
         fs = "".join(rng.choice(dirs) for _ in range(rng.randint(0, 5)))
         nd = sum(1 for d in ["%s", "%S", "%d", "%f"] for _ in range(fs.count(d)))
@@ -48,6 +48,7 @@ def generate(tier, seed):
     reqs += ["(format)", "(format 1)", "(format 'a 1)", '(format "%d" "x")', '(format "%f" "x")', '(format "%d" 2.9)', '(format "%d" -2.9)', '(format "%f" 3)']
     for a in args + STRS:
         reqs += ["(prin1-to-string %s)" % a, "(print %s)" % a, "(princ %s)" % a]
+        reqs += ["(prin1-to-string (list %s))" % a, '(format "%%S" %s)' % a, '(format "%%s" (list %s 1))' % a, '(format "%%S|%%s" (list %s) %s)' % (a, a)]
     reqs += ['(intern "foo")', '(eq (intern "foo") \'foo)', '(intern "")', '(intern "with space")', "(intern 1)", "(intern)", '(make-symbol "foo")',
              '(eq (make-symbol "foo") \'foo)', '(symbolp (make-symbol "x"))', "(make-symbol 1)", '(keywordp (make-symbol ":k"))', '(keywordp (intern ":kk"))',
              "(list (gensym) (gensym) (gensym \"p\") gensym-counter)", "(progn (setq gensym-counter 10) (list (gensym) (gensym) gensym-counter))",
